@@ -27,3 +27,21 @@ Proof.
   cbn [trun_tower]. unfold tcall. apply negb_true_iff in Hq. rewrite Hq. cbn [andb].
   destruct (0 + 1 <=? thr); cbn [forallb o_inflight]; rewrite IH by exact Ht; reflexivity.
 Qed.
+
+(** from any number in flight, after any requests: what is in flight at the end is what was in flight at the
+    start plus one per future dropped before completion - every other path (response, inner error, rejection,
+    fallback) gives its admission back *)
+Theorem c20_inflight_accounting thr fb : forall l k,
+  last_inflight k (trun_tower thr fb k l) = k + dropped (trun_tower thr fb k l).
+Proof.
+  unfold dropped.
+  induction l as [|q tl IH]; intros k; [cbn; lia|].
+  cbn [trun_tower]. unfold tcall.
+  destruct (k + 1 <=? thr).
+  - destruct (q_drop q && is_pending (q_kind q)).
+    + cbn [last_inflight o_inflight filter o_resp resp_eqb length]. rewrite IH. lia.
+    + cbn [last_inflight o_inflight filter o_resp]. rewrite IH.
+      destruct (is_ok (q_kind q)); cbn [resp_eqb]; lia.
+  - cbn [last_inflight o_inflight filter o_resp]. rewrite IH.
+    destruct (fb =? 1); cbn [resp_eqb]; lia.
+Qed.
